@@ -18,10 +18,16 @@ def run(ctx):
         "adds, subtracts and compares times, so this is a change of unit; binary-float rounding exactly at a boundary is not modelled "
         "(the float-second oracle keeps 1 ms distance from every boundary)",
         "a reactor turn runs every due delayed call once and sees one value of time.time() (task.Clock semantics); the order of "
-        "the two callbacks inside one turn is not modelled (they touch disjoint state)",
-        "transport.loseConnection() leads to connectionLost() at some later time chosen by the schedule (Close event)",
-        "PING/PONG transparency is proved on a token-level model of handleData's dispatch; the byte-level tokenizer is covered by "
-        "the correspondence run (every token boundary, bytewise and random chunkings), not by a theorem",
+        "the two callbacks inside one turn is proved immaterial (C15_callback_order_immaterial)",
+        "transport.loseConnection() leads to connectionLost() at some later time chosen by the schedule (Close / BLost event); "
+        "until then the keepalive timer stays armed (C15_keepalive_survives_teardown, seen on the real Broker as well)",
+        "byte-level PING/PONG theorems are about the C07 receiver model lib/Recv.v + lib/BananaRecv.v (hand-transcribed from "
+        "handleData, instantiated with the policy unslicers of harness/c07_impl.py) tied by vm_compute correspondence: woven streams "
+        "under whole / bytewise / random chunkings on the real Banana vs bfeed_all vs the specification `expect`; real unslicers "
+        "(StorageBanana, Broker) are covered by the direct oracle at every token boundary",
+        "pending calls: the request table / eventual queue is C03's model lib/Requests.v (translated PendingRequest, Broker.finish, "
+        "abandonAllRequests); the glue connectionTimedOut -> shutdown -> finish / loseConnection and Broker.connectionLost is "
+        "translated statement by statement (gen/TimersGen.v) and compared with the real Broker (calls, teardown, late call, close)",
     ]
     ok, log = ctx.coq_build(["props/C15.vo"])
     from harness import c15_impl as impl
@@ -54,7 +60,8 @@ def run(ctx):
     # 2. correspondence with the Coq model
     model_ok = ok
     if not ok:
-        model_ok, _ = ctx.coq_build(["lib/Timers.vo"])
+        model_ok, _ = ctx.coq_build(["lib/Timers.vo", "lib/TimersCalls.vo"])
+    ctx.extra["_callcases"] = []
     if model_ok:
         correspond(ctx, cases)
     tm['correspond'] = round(_t.time() - ctx.t0, 1)
@@ -63,11 +70,20 @@ def run(ctx):
     # 4. pending calls fail with DeadReferenceError on teardown
     pending_calls(ctx, impl, eps)
     call_states(ctx, impl, eps)
+    closing_paths(ctx, impl, eps)
+    if model_ok:
+        calls_correspond(ctx)
     tub_level(ctx, impl)
     tm['float+calls+tubs'] = round(_t.time() - ctx.t0, 1)
     # 5. PING / PONG
     pingpong(ctx, impl, model_ok)
     tm['pingpong'] = round(_t.time() - ctx.t0, 1)
+    wire_ok = ok
+    if not ok:
+        wire_ok, _ = ctx.coq_build(["lib/TimersWire.vo"])
+    if wire_ok:
+        wire_correspond(ctx, impl)
+    tm['wire'] = round(_t.time() - ctx.t0, 1)
     ctx.extra['cumulative_s'] = tm
     if not ok and len(ctx.failures) == before:
         ctx.fail("proof-broken", "theorem closure props/C15.vo no longer builds against the regenerated gen/TimersGen.v:\n"
@@ -339,6 +355,9 @@ def judge(K, T, eps, t0, events, o, tol, results=None):
                 break
     if seen_close is not None and (o.leftover or o.attr_ka or o.attr_dc):
         bad.append(("oracle/timer-after-close", "timer still referenced after connectionLost: %r" % (o.leftover,)))
+    elif seen_close is not None and getattr(o, "leftover_any", None):
+        bad.append(("oracle/timer-after-close", "delayed calls of this connection still scheduled after connectionLost: %r"
+                    % (o.leftover_any,)))
     # (e) a teardown drops the transport at once; timers exist exactly when configured (until close / teardown)
     nbad = sum(1 for k, _ in events if k == "rxbad")
     if len(o.lose) < len(o.torn) or any(x not in o.lose for x in o.torn):
@@ -541,6 +560,12 @@ def pending_calls(ctx, impl, eps):
         for sig, what in bad:
             ctx.fail(sig, what + "  [K=%r T=%r calls=%d events=%r]" % (K, T, ncalls, ev),
                      replay=dict(K=K, T=T, calls=ncalls, events=ev))
+        # for the correspondence with the Broker model (timers + request table): calls, the schedule, a late call, the close
+        mev = ["call"] * ncalls + [tuple(e) for e in ev[:-1]] + ["call"] + [tuple(ev[-1])]
+        fires = [[4 if k == "DeadReferenceError" else 7 for (i2, k) in kinds if i2 == i] for i in range(ncalls)]
+        fires.append([4 if k == "DeadReferenceError" else 7 for k in lk])
+        ctx.extra["_callcases"].append((K, T, mev, fires, [], list(o.lose), list(o.torn), bool(o.disconnected),
+                                        "pending-calls K=%r T=%r calls=%d events=%r" % (K, T, ncalls, ev)))
 
 
 # ------------------------------------------------------------------------------------------ pending calls, every state
@@ -587,11 +612,53 @@ def call_states(ctx, impl, eps):
                                 "exactly one DeadReferenceError at the teardown time %r" % (i, st, res["reqids"][i], got, x)))
             if res["waiting_left"]:
                 bad.append(("oracle/pending-call-not-failed", "requests still registered after the teardown: %r" % (res["waiting_left"],)))
+        if len(o.torn) == 1 and not o.exc:
+            # Broker model: the calls in the order they were made, the arrivals, the answers (all complete before the
+            # silence), the idle phase, the close
+            order = res["order"]
+            nrx = max([i for i, e in enumerate(ev) if e[0] in ("rx", "rxbad")] + [-1]) + 1
+            mev = ["call"] * len(order) + [tuple(e) for e in ev[:nrx]] + \
+                  [("answer", res["reqids"][i]) for i in res["answered_order"]] + [tuple(e) for e in ev[nrx:]]
+            code = {"DeadReferenceError": 4, "42": 1}
+            fires = [[code.get(k, 7) for (tm_, k) in res["outcomes"][i]] for i in order]
+            ctx.extra["_callcases"].append((K, T, mev, fires, list(res["waiting_left"]), list(o.lose), list(o.torn), bool(o.disconnected),
+                                            "call-states K=%r T=%r states=%r events=%r" % (K, T, res["states"], ev)))
         for sig, what in bad:
             ctx.fail(sig, what + "  [K=%r T=%r call states %r, inbound bytes %s fed in chunks of <= %r, events %r]"
                      % (K, T, res["states"], res["inbound"], csize, ev),
                      replay=dict(K=K, T=T, states=res["states"], inbound=res["inbound"], chunk=csize, events=ev, payloads=o.payloads,
                                  outcomes=res["outcomes"]))
+
+
+# ------------------------------------------------------------------------------------------ every closing path
+
+def closing_paths(ctx, impl, eps):
+    """'All timers are cancelled when the connection closes', for every way a Broker ends (fixed list, every K/T
+    combination): connectionLost with or without connectionMade, after an idle teardown, after the application's
+    shutdown() / finish(), twice; plus reactor turns long after.  After the last connectionLost no delayed call of the
+    Broker may be scheduled, nothing may raise, the pending call failed exactly once with DeadReferenceError."""
+    long_ = "tick:%d" % (5 * 7000 + eps)
+    # (Twisted never delivers connectionLost twice to one protocol: not in the list)
+    paths = [["lost"], ["made", "lost"], ["made", "shutdown", "lost"],
+             ["made", "finish", "lost"], ["made", "shutdown", "shutdown", "lost"], ["made", "finish", "finish", "lost", long_],
+             ["made", long_, "lost"], ["made", long_, "lost", long_], ["made", long_, "shutdown", "lost"],
+             ["made", "shutdown", long_, "lost", long_], ["lost", long_], ["made", "tick:1", "lost", long_]]
+    for K in (None, 2000):
+        for T in (None, 3000):
+            for path in paths:
+                r = impl.closing_path(K, T, path, False)
+                ctx.case(["closing", K, T, path], nontrivial=True)
+                ctx.hist("origin", "closing-paths")
+                bad = []
+                if r["exc"]:
+                    bad.append(("oracle/exception", "closing the connection raised " + r["exc"]))
+                if r["left"] or r["attrs"]:
+                    bad.append(("oracle/timer-after-close", "after the last connectionLost: delayed calls %r still scheduled, "
+                                "timer attributes %r still set" % (r["left"], r["attrs"])))
+                if r["made"] and r["results"] != ["DeadReferenceError"]:
+                    bad.append(("oracle/pending-call-not-failed", "the pending callRemote ended as %r" % (r["results"],)))
+                for sig, what in bad:
+                    ctx.fail(sig, what + "  [K=%r T=%r ms, steps %r]" % (K, T, path), replay=dict(K=K, T=T, path=path))
 
 
 # ------------------------------------------------------------------------------------------ Tub level
@@ -725,6 +792,16 @@ def pingpong(ctx, impl, model_ok):
                     ch.append(c)
                     left -= c
                 chunkings.append(ch)
+            if len(plan) == 1 and plan[0][0] < len(toks) and (plan[0][0] < 24 or plan[0][0] % 4 == 0):
+                # fixed family: the chunk that carries the keepalive token ends INSIDE the token that follows it (one byte
+                # into it / one byte short of its end), and the keepalive token itself is cut in two
+                bi = plan[0][0]
+                start = sum(toks[j][1] - toks[j][0] for j in range(bi))
+                plen = len(impl.ping_bytes(plan[0][2], impl.PING))
+                nxt = toks[bi][1] - toks[bi][0]
+                for cut in sorted({start + plen + 1, start + plen + max(1, nxt - 1), start + max(1, plen - 1)}):
+                    if 0 < cut < len(out):
+                        chunkings.append([cut, len(out) - cut])
             for ch in chunkings:
                 r = impl.decode(out, ch)
                 ctx.case(["pp", mi, [(b, kd, str(n)) for (b, kd, n) in plan], "whole" if ch is None else ("bytewise" if len(ch) == len(out) else ch)],
@@ -927,3 +1004,199 @@ def pp_correspond(ctx, impl, origs, tokcases, singles):
                     ctx.fail("correspondence/pingpong", "; ".join(diffs), replay=dict(n=str(n), kind=kind), has_input=False)
     ctx.extra["pingpong_correspondence_cases"] = total
     ctx.extra["pingpong_correspondence_disagreements"] = nbad
+
+
+# ------------------------------------------------------------------------------------------ Broker model = timers + request table
+
+CALLBODY = """
+Local Open Scope Z_scope.
+Definition cases : list (option Z * option Z * list bev) := %s.
+Eval vm_compute in map (fun '(K, T, evs) => bobs (broker_run {| cK := K; cT := T |} 0 evs)) cases.
+"""
+
+
+def coq_bev(e, nturns):
+    turns = ["BReq Turn"] * nturns
+    if e == "call":
+        return ["BReq (Call KTwoWay)"] + turns
+    k, t = e
+    if k == "answer":
+        return ["BReq (Answer %s)" % coq_Z(t)] + turns
+    if k == "close":
+        return ["BLost %s (RListed ConnectionDoneC)" % coq_Z(t)] + turns
+    return ["%s %s" % ({"rx": "BRx", "rxbad": "BRxBad", "tick": "BTick"}[k], coq_Z(t))] + turns
+
+
+def calls_correspond(ctx):
+    """the combined Broker model (lib/TimersCalls.v) on the pending-call schedules the real Broker just ran: per call the
+    outcomes fired (1 result, 4 DeadReferenceError), the request table, loseConnection and teardown times, disconnected"""
+    cases = ctx.extra.pop("_callcases", [])
+    if not cases:
+        return
+    jobs = []
+    STEP = 120
+    for k in range(0, len(cases), STEP):
+        lines = []
+        for (K, T, mev, fires, table, lose, torn, disc, what) in cases[k:k + STEP]:
+            nt = len(fires) + 1
+            evs = []
+            for e in mev:
+                evs += coq_bev(e, nt)
+            lines.append("(%s, %s, %s)" % (coq_opt(K, coq_Z), coq_opt(T, coq_Z), coq_list(evs)))
+        jobs.append(("C15_calls_%d" % (k // STEP), CALLBODY % coq_list(lines)))
+    req = REQ + ["Verif.gen.RequestsGen", "Verif.lib.Requests", "Verif.lib.TimersCalls"]
+    nbad = 0
+    total = 0
+    for ji, (name, body) in enumerate(jobs):
+        try:
+            (vals,) = ctx.coq_eval(name, body, requires=req)
+        except common.CoqEvalError as e:
+            ctx.fail("correspondence-broken", "the Broker model (timers + requests) could not be evaluated: " + str(e)[-1500:], has_input=False)
+            return
+        for (K, T, mev, fires, table, lose, torn, disc, what), m in zip(cases[ji * STEP:(ji + 1) * STEP], vals):
+            total += 1
+            ctx.traces += 1
+            mf, mtab, mlose, mtorn, mdisc = m
+            got = ([list(x) for x in mf], sorted(mtab), list(mlose), list(mtorn), mdisc)
+            want = ([list(x) for x in fires], sorted(table), list(lose), list(torn), disc)
+            if got != want:
+                nbad += 1
+                ctx.fail("correspondence/broker-calls", "Broker model (fires per call, request table, loseConnection times, teardown "
+                         "times, disconnected) %r, implementation %r  [%s]" % (got, want, what),
+                         replay=dict(case=what, model=repr(got), implementation=repr(want)), has_input=False)
+    ctx.extra["broker_calls_correspondence_cases"] = total
+    ctx.extra["broker_calls_correspondence_disagreements"] = nbad
+
+
+# ------------------------------------------------------------------------------------------ byte level: woven streams
+
+WIREBODY = """
+Local Open Scope Z_scope.
+Definition rc (r : res (list Z)) : list Z := match r with Ok l => l | Exc _ => [-1] end.
+Definition cases : list (Z * list item * list (list (list Z))) := %s.
+Eval vm_compute in map (fun '(mode, items, css) =>
+   (rc (wire items), run_expect mode [] items, map (run_chunks mode []) css, run_chunks mode [] [plain items])) cases.
+"""
+
+
+def wire_correspond(ctx, impl):
+    """C15_ping_pong_bytes on the real code: token streams for the policy receiver (violations at every depth, long
+    strings, LONGINTs, FLOATs) with PING n / PONG n woven in at token boundaries; the real Banana under whole / bytewise /
+    random chunkings, the C07 model bfeed_all on the same chunks, and the specification `expect` must agree on every
+    event, on the final receiver state, on the bytes written, and on the decoding of the stream without the pings"""
+    rng = ctx.rng
+    nums = [0, 1, 127, 128, 300, 2 ** 64 + 5, 2 ** 448 - 1]
+    cases = []
+    fixed = __import__("random").Random(1507)
+    for trial in range(ctx.n(60, 400)):
+        r_ = fixed if trial < 12 else rng          # a fixed family first: detection does not depend on the random stream
+        mode, toks = impl.policy_stream(r_)
+        items = []
+        for t in toks:
+            while r_.random() < 0.3:
+                items.append((r_.choice(["Ping", "Ping", "Pong"]), r_.choice(nums)))
+            items.append(("Bytes", t))
+        while r_.random() < 0.4:
+            items.append((r_.choice(["Ping", "Pong"]), r_.choice(nums)))
+        if trial % 7 == 3 and items:                 # a keepalive token that is NOT between two tokens: `placed` must say so
+            j = r_.randrange(len(items))
+            if items[j][0] == "Bytes" and len(items[j][1]) > 1:
+                b = items[j][1]
+                cut = r_.randrange(1, len(b))
+                items[j:j + 1] = [("Bytes", b[:cut]), ("Ping", 9), ("Bytes", b[cut:])]
+        stream = b"".join(x[1] if x[0] == "Bytes" else impl.ping_bytes(x[1], impl.PING if x[0] == "Ping" else impl.PONG) for x in items)
+        plain = b"".join(x[1] for x in items if x[0] == "Bytes")
+        chunkings = [[len(stream)]] + ([[1] * len(stream)] if len(stream) <= 160 else [])
+        ch, left = [], len(stream)
+        while left > 0:
+            c = min(left, r_.randint(1, 11))
+            ch.append(c)
+            left -= c
+        chunkings.append(ch)
+        real = [impl.run_policy(stream, c, mode) for c in chunkings]
+        real_plain = impl.run_policy(plain, [len(plain)], mode)
+        cases.append((mode, items, stream, plain, chunkings, real, real_plain))
+        ctx.case(["wire", mode, [(k, v.hex() if k == "Bytes" else str(v)) for k, v in items]], nontrivial=any(k != "Bytes" for k, _ in items))
+        ctx.hist("origin", "wire")
+    from harness.c07 import modecode
+
+    def coq_item(x):
+        if x[0] == "Bytes":
+            return "Bytes %s" % coq_list(list(x[1]), coq_Z)
+        return "%s %s" % (x[0], coq_Z(x[1]))
+    jobs = []
+    STEP = 20
+    for k in range(0, len(cases), STEP):
+        lines = []
+        for (mode, items, stream, plain, chunkings, real, real_plain) in cases[k:k + STEP]:
+            css = []
+            for ch in chunkings:
+                pos, parts = 0, []
+                for n in ch:
+                    parts.append(coq_list(list(stream[pos:pos + n]), coq_Z))
+                    pos += n
+                css.append(coq_list(parts))
+            lines.append("(%d, %s, %s)" % (modecode(mode), coq_list(items, coq_item), coq_list(css)))
+        jobs.append(("C15_wire_%d" % (k // STEP), WIREBODY % coq_list(lines)))
+    req = ["Verif.lib.PyLite", "Verif.gen.BananaGen", "Verif.gen.TimersGen", "Verif.lib.Token", "Verif.lib.Recv",
+           "Verif.lib.BananaRecv", "Verif.lib.TimersWire"]
+    from concurrent.futures import ThreadPoolExecutor
+
+    def one(j):
+        try:
+            return ctx.coq_eval(j[0], j[1], requires=req)
+        except common.CoqEvalError as e:
+            return e
+    with ThreadPoolExecutor(max_workers=6) as ex:
+        results = list(ex.map(one, jobs))
+    nbad = total = placed_n = 0
+    for ji, res in enumerate(results):
+        if isinstance(res, Exception):
+            ctx.fail("correspondence-broken", "the byte-level PING/PONG model could not be evaluated: " + str(res)[-1500:], has_input=False)
+            return
+        (vals,) = res
+        for (mode, items, stream, plain, chunkings, real, real_plain), m in zip(cases[ji * STEP:(ji + 1) * STEP], vals):
+            total += 1
+            ctx.traces += 1
+            mwire, mexp, mruns, mplain = m
+            placed, exp_ev, exp_snap, exp_undisturbed = mexp
+            diffs = []
+            if list(mwire) != list(stream):
+                diffs.append("bytes of the woven stream: translated sendPING/sendPONG give %r, the real int2b128 %r" % (list(mwire)[:80], list(stream)[:80]))
+            pings = [v for k, v in items if k == "Ping"]
+            for ch, (rev, rsnap, esc, written), (mev, msnap) in zip(chunkings, real, mruns):
+                tag = "whole" if len(ch) == 1 else ("bytewise" if len(ch) == len(stream) else "chunks %r" % ch[:12])
+                if esc:
+                    diffs.append("%s: dataReceived raised %s" % (tag, esc))
+                if [list(e) for e in mev] != rev:
+                    diffs.append("%s: events: model %r, implementation %r" % (tag, mev, rev))
+                dead = rsnap[5]
+                if (list(msnap)[:2] + list(msnap)[5:] != rsnap[:2] + rsnap[5:] and not dead) or (not dead and list(msnap)[2:5] != rsnap[2:5]) \
+                        or bool(list(msnap)[5]) != bool(dead):
+                    diffs.append("%s: final receiver state (buffer, skip, discard, depth, inOpen, dead): model %r, implementation %r" % (tag, msnap, rsnap))
+                if placed is True:
+                    if [list(e) for e in exp_ev] != rev:
+                        diffs.append("%s: the specification `expect` gives events %r, implementation %r" % (tag, exp_ev, rev))
+                    want_written = b"".join(impl.ping_bytes(e[1], impl.PONG) for e in rev if e[0] == 18)
+                    if not dead and written != want_written:
+                        diffs.append("%s: bytes written %r, expected the PONGs %r" % (tag, written, want_written))
+            if placed is True:
+                placed_n += 1
+                if [list(e) for e in exp_undisturbed] != real_plain[0]:
+                    diffs.append("stream WITHOUT the keepalive tokens: implementation %r, specification %r" % (real_plain[0], exp_undisturbed))
+                if [list(e) for e in mplain[0]] != real_plain[0]:
+                    diffs.append("stream without the keepalive tokens: model %r, implementation %r" % (mplain[0], real_plain[0]))
+                got_pongs = [e[1] for e in real[0][0] if e[0] == 18]
+                plain_pongs = [e[1] for e in real_plain[0] if e[0] == 18]
+                if len(got_pongs) != len(plain_pongs) + len(pings):
+                    diffs.append("PINGs woven in %r, PONGs answered %r" % (pings, got_pongs))
+            ctx.hist("wire-placed", str(placed))
+            if diffs:
+                nbad += 1
+                ctx.fail("correspondence/wire-pingpong", "byte-level PING/PONG: %s  [root mode %s, items %r]"
+                         % ("; ".join(diffs)[:3000], mode, [(k, v.hex() if k == "Bytes" else v) for k, v in items][:60]),
+                         replay=dict(mode=mode, items=[(k, v.hex() if k == "Bytes" else str(v)) for k, v in items], stream=stream.hex()),
+                         has_input=False)
+    ctx.extra["wire_correspondence_cases"] = total
+    ctx.extra["wire_correspondence_placed"] = placed_n
+    ctx.extra["wire_correspondence_disagreements"] = nbad
